@@ -9,10 +9,11 @@ CONSTANTS
   MaxAdds = 4
   MaxEnds = 2
   AtomicAdd = FALSE
+  ClosedRefuses = TRUE
   SplitGet = FALSE
   RecheckOnStore = TRUE
   StaleTimers = FALSE
 VIEW View
 INVARIANTS TypeOK LatUnique PendingAgree TimerSane
-PROPERTIES OrderPreserved LatestCoalesced EndFlushesAll EndDiscards SizeExact
+PROPERTIES NoOrphanFlush OrderPreserved LatestCoalesced EndFlushesAll EndDiscards SizeExact
 CHECK_DEADLOCK FALSE
